@@ -274,6 +274,16 @@ def run_shard(shard):
             probes.append((f"SetDT8TcLimit(0,{bad!r})", lambda bad=bad: SetDT8TcLimit(GearShort(3), L.TcCoolest, bad)))
         for bad in (2, 16, 255, None, L.TcCoolest, "ColourTemperatureTC", 2.0):
             probes.append((f"QueryDT8ColourValue({bad!r})", lambda bad=bad: QueryDT8ColourValue(GearShort(3), bad)))
+        # every byte that is NOT a selector code in the standard's table, turned into a "selector" the way an application
+        # validates a raw code - by calling the enum with it: nothing may reach the bus
+        from dalimc.spec import dt8_tables as T8
+        qcodes = set(T8.QUERY_COLOUR_VALUE_DTR.values())
+        lcodes = set(T8.STORE_TC_LIMIT_DTR2.values())
+        for code in range(256):
+            if code not in qcodes:
+                probes.append((f"QueryDT8ColourValue(QueryColourValueDTR({code}))", lambda code=code: QueryDT8ColourValue(GearShort(3), Q(code))))
+            if code not in lcodes:
+                probes.append((f"SetDT8TcLimit(StoreColourTemperatureTcLimitDTR2({code}))", lambda code=code: SetDT8TcLimit(GearShort(3), L(code), 300)))
         for label, mk in probes:
             u, v, bus = mkbus()
             try:
